@@ -6,6 +6,9 @@ MCInit == Init /\ hist = <<>>
 MCNext == Next /\ hist' = Append(hist, [op |-> out'.op, r |-> out'.r, f |-> out'.f,
                                          v |-> out'.v, q |-> out'.q, o |-> out'.o])
 MCSpec == MCInit /\ [][MCNext]_<<vars, hist>>
+\* exhaustive runs only need the length of the history (depth bound)
+MCNextX == Next /\ hist' = Append(hist, 0)
+MCSpecX == MCInit /\ [][MCNextX]_<<vars, hist>>
 \* exhaustive runs: the observation and the content of the history are not part of the state
 \* identity; its length is, so that the depth bound is exact (every state reachable within
 \* MaxDepth operations is explored, independent of the order in which workers find states)
